@@ -120,8 +120,10 @@ class Gen:
                                                            'for_queue', 'for_chan', 'interval', 'delay_iter', 'collect', 'first', 'try_chan')]
         if ctx.get('inloop'):
             # loop bodies re-execute: no statement that binds a scope or task name
+            # ... and no put: a consumer loop that feeds its own stream never ends (the program's own livelock)
             items = [(k, v) for k, v in items if k not in ('scope', 'until_time', 'until_cond', 'do', 'collect', 'first',
-                                                           'for_queue', 'for_chan', 'interval', 'delay_iter')]
+                                                           'for_queue', 'for_chan', 'interval', 'delay_iter', 'put',
+                                                           'chan_put', 'try_stream', 'try_chan')]
         if not ctx['scopes'] and not self.all_scopes:
             items = [(k, v) for k, v in items if k != 'do']
         if not self.tasks:
